@@ -650,7 +650,8 @@ def message_case(run, v, mname, label, lines, expect, ref, nodes, profile=None, 
             'shape': shape_of(msg), 'label': label, 'structure': mname}
     if expect[0] == 'valid':
         if code != 0 or keys:
-            grouping = nodes is not None and names_intended(nodes) != names_parsed(case['shape'])
+            parsed = [x for x in names_parsed(case['shape']) if not (label == 'conforming-plus-z' and x == 'ZXX')]
+            grouping = nodes is not None and names_intended(nodes) != parsed
             dup = nodes is not None and dup_conflict(ref, nodes)
             tree_ok = None
             if nodes is not None and label != 'conforming-plus-z':
@@ -740,7 +741,7 @@ def message_level(run, rng, dist):
             stats['structures'] += 1
             base_ok = True
             for label, lines, expect, nodes in message_variants(rng, lib, v, m, ref, run.thorough):
-                if expect[0] != 'valid' and not base_ok:
+                if (expect[0] != 'valid' or label == 'conforming-plus-z') and not base_ok:
                     continue      # mutations are judged against a base instance that validates
                 before = len(run.failures)
                 c = message_case(run, v, m, label, lines, expect, ref, nodes)
